@@ -187,6 +187,14 @@ def apply3(fn, node, how):
     elif how == "AUG2PLAIN":
         getattr(pn[0], pn[1])[pn[2]] = ast.Assign(targets=[node.target], value=node.value)
         node.target.ctx = ast.Store()
+    elif how == "INDENT":
+        lst = getattr(pn[0], pn[1])
+        nxt = lst.pop(pn[2] + 1)
+        node.body.append(nxt)
+    elif how == "DEDENT":
+        lst = getattr(pn[0], pn[1])
+        last = node.body.pop()
+        lst.insert(pn[2] + 1, last)
     elif how == "SWAPNEXT":
         lst = getattr(pn[0], pn[1])
         lst[pn[2]], lst[pn[2] + 1] = lst[pn[2] + 1], lst[pn[2]]
@@ -195,12 +203,35 @@ def apply3(fn, node, how):
     return True
 
 
+def mutants4_of(fn):
+    """Fourth family (indentation slips): the statement after a loop moved into the loop (as its last statement), the last
+    statement of a loop body moved behind the loop; the same for `if` bodies (the statement after an `if` without else
+    moved into it, the last statement of an `if` body moved behind it)."""
+    nodes = list(ast.walk(fn))
+    par = _parents(fn)
+    out = []
+    for i, n in enumerate(nodes):
+        ln = getattr(n, "lineno", 0)
+        if isinstance(n, (ast.For, ast.While, ast.If)) and not n.orelse:
+            pn = par.get(id(n))
+            kind = "loop" if isinstance(n, (ast.For, ast.While)) else "if"
+            if pn and pn[2] is not None and pn[2] + 1 < len(getattr(pn[0], pn[1])):
+                nxt = getattr(pn[0], pn[1])[pn[2] + 1]
+                if not _is_log(nxt) and not isinstance(nxt, (ast.FunctionDef, ast.ClassDef)) and not (kind == "if" and isinstance(n.body[-1], (ast.Return, ast.Raise, ast.Continue, ast.Break))):
+                    out.append((f"{ln}: statement after the {kind} indented into it: {ast.unparse(nxt)[:40]}", i, "INDENT"))
+            if len(n.body) > 1 and not _is_log(n.body[-1]) and not isinstance(n.body[-1], (ast.Continue, ast.Break)):
+                out.append((f"{ln}: last statement of the {kind} body dedented: {ast.unparse(n.body[-1])[:40]}", i, "DEDENT"))
+    return out
+
+
 def mutants_of(fn):
     """Yield (description, mutator(node_copy)) for one function; mutators are located by a pre-order index."""
     if OPS["set"] == 2:
         return mutants2_of(fn)
     if OPS["set"] == 3:
         return mutants3_of(fn)
+    if OPS["set"] == 4:
+        return mutants4_of(fn)
     nodes = list(ast.walk(fn))
     out = []
     REL = {ast.Lt: [ast.LtE, ast.GtE], ast.LtE: [ast.Lt], ast.Gt: [ast.GtE, ast.LtE], ast.GtE: [ast.Gt], ast.Eq: [ast.NotEq], ast.NotEq: [ast.Eq],
